@@ -109,6 +109,10 @@ type G struct {
 	SendVal Value
 	Panic   Value
 	Paniced bool
+	PanicMsg    string // message of the panic being unwound
+	PanicWhere  string // where it was raised
+	UnwindLevel int    // number of frames when the frame being unwound is on top
+	Recovered   bool   // a deferred call recovered the panic: finish the frame's defers, then leave through its recover block
 	WaitKey   string
 	NoYield   bool
 	Slept     bool
